@@ -202,11 +202,18 @@ func worldOIDC(w *World) {
 			w.Check("C04.oidc-login-refused")
 			c := env.newClient(fmt.Sprintf("adv%d", adv), 0)
 			c.Opts.LoginKey = b.tok
-			resp, err := c.login("")
+			rid := ""
+			if r.Intn(3) == 0 {
+				rid = honest.RunID // a refused login naming a live session's run id must not disturb that session
+			}
+			resp, err := c.login(rid)
 			if err == nil && resp != nil && mstr(resp, "error") == "" {
 				viol("login", "accepted-oidc-"+b.name, "login with token variant %q was accepted: %v", b.name, resp)
 			}
 			c.Drop()
+			if rid != "" {
+				checkHonest("after-refused-login-with-its-run-id")
+			}
 		case 2: // a session fed only heartbeats with invalid tokens
 			if !scopeHB {
 				continue
